@@ -17,7 +17,7 @@ class Screw:
 
     __array_ufunc__ = None
 
-    def __init__(self, data : 'np.ndarray[float]' = np.zeros((6,1)), frame_applied : tm = None):
+    def __init__(self, data : 'np.ndarray[float]' = None, frame_applied : tm = None):
         """
         Create a new Screw.
 
@@ -27,6 +27,8 @@ class Screw:
             data (np.ndarray[Float]) : data representing a screw, of shape ((6,1))
             frame_applied (tm, optional): If not specified, assumes origin.
         """
+        if data is None:
+            data = np.zeros((6,1))
         if not data.shape == ((6,1)):
             self.data = data.reshape((6,1))
         else:
